@@ -1,6 +1,6 @@
 """Child-process launcher for the C18 (determinism) check.
 
-    python -m harness.impl.launch_shuffled MODE [--sidecar FILE] [--outdir DIR] [--srcroot DIR] -- <pydoctor args>
+    python -m harness.impl.launch_shuffled MODE [--sidecar FILE] [--outdir DIR] [--srcroot DIR] [--clock SECONDS] -- <pydoctor args>
 
 Runs the real `pydoctor.driver.main(<pydoctor args>)` in this interpreter (whose hash seed the
 parent fixed through PYTHONHASHSEED) after replacing the directory-listing primitives
@@ -14,6 +14,12 @@ another order:
 
 Every reordering is a function of the SET of entries, so applying it twice (Path.iterdir is built
 on os.listdir in some Python versions and not in others) changes nothing.
+
+--clock SECONDS moves the wall clock of this process: `datetime.datetime.now()/utcnow()/today()` answer the
+fixed naive instant 1970-01-01 + SECONDS and `time.time()` is shifted accordingly (the `datetime.datetime` name
+in the `datetime` module is rebound to a subclass before pydoctor is imported).  Two builds given different
+clocks differ in wall-clock second without anybody sleeping, so any dependence of the output on the time of
+the run shows at once.
 
 Nothing in pydoctor is replaced.  For the correspondence streams the launcher only OBSERVES:
   * the listings it handed out under --srcroot,
@@ -173,6 +179,36 @@ def install(mode: str, record: Dict[str, Any], srcroot: Optional[str], outdir: O
         sys.addaudithook(hook)
 
 
+def install_clock(fake: int, record: Dict[str, Any]) -> None:
+    import datetime as _dt
+    import time as _time
+    real = _dt.datetime
+    base = real(1970, 1, 1) + _dt.timedelta(seconds=fake)
+
+    class datetime(real):  # noqa: N801 - it takes the place of datetime.datetime
+        @classmethod
+        def now(cls, tz: Any = None) -> Any:
+            if tz is None:
+                return cls(base.year, base.month, base.day, base.hour, base.minute, base.second)
+            return cls.fromtimestamp(fake, tz)
+
+        @classmethod
+        def utcnow(cls) -> Any:
+            return cls(base.year, base.month, base.day, base.hour, base.minute, base.second)
+
+        @classmethod
+        def today(cls) -> Any:
+            return cls.now()
+
+    datetime.__qualname__ = "datetime"
+    datetime.__module__ = "datetime"
+    _dt.datetime = datetime  # type: ignore[misc]
+    real_time = _time.time
+    offset = fake - real_time()
+    _time.time = lambda: real_time() + offset  # type: ignore[assignment]
+    record["clock"] = fake
+
+
 def observe_pydoctor(record: Dict[str, Any]) -> None:
     """wrap (never replace the behaviour of) three entry points to record facts"""
     from pydoctor import driver, model
@@ -204,6 +240,8 @@ def observe_pydoctor(record: Dict[str, Any]) -> None:
             record["projectname"] = system.projectname
             record["explicit"] = system.options.projectname
             record["buildtime"] = system.buildtime.isoformat()
+            import datetime as _dt
+            record["buildtime_seconds"] = int((system.buildtime - _dt.datetime(1970, 1, 1)).total_seconds())
             record["summary_pages"] = [p.__name__ for p in summary.summaryPages(system)]
             urls = {}
             for o in system.allobjects.values():
@@ -230,6 +268,8 @@ def main(argv: List[str]) -> int:
     sidecar = opts.get("--sidecar")
     record: Dict[str, Any] = {"mode": mode, "hashseed": os.environ.get("PYTHONHASHSEED"),
                               "hash_of_a": hash("a")}
+    if opts.get("--clock") is not None:
+        install_clock(int(opts["--clock"]), record)
     install(mode, record, opts.get("--srcroot"), opts.get("--outdir"))
     code: Any = 1
     try:
